@@ -51,37 +51,56 @@ NEUTRAL = [
 ]
 
 
-def run_neutral(props: List[str], prog: Program) -> Dict[str, Any]:
+def run_neutral(props: List[str], prog: Program, corpus: bool = True) -> Dict[str, Any]:
+    import os
+    from .mutate import apply_unified, eval_variants
     mods = {p: importlib.import_module(f'pjx.props.{p.lower()}') for p in props}
     base = {}
     for p, mod in mods.items():
         ck = Check(p, 'quick')
         mod.run(ck, prog)
         base[p] = {f.key for f in ck.findings}
-    res: Dict[str, Any] = {'variants': len(NEUTRAL), 'silent': [], 'alarms': {}, 'skipped': []}
+    res: Dict[str, Any] = {'variants': 0, 'silent': [], 'alarms': {}, 'skipped': []}
+    names, jobs = [], []
     for m in NEUTRAL:
+        res['variants'] += 1
         ov = apply(prog, m)
         if ov is None:
             res['skipped'].append(m['name'])
             continue
-        mp = Program(prog.repo, prog.pkg, overrides=ov)
+        names.append(m['name'])
+        jobs.append(ov)
+    # the independently written behaviour-preserving refactorings kept under /verif/seeded_neutral (unified diffs, applied in memory)
+    cdir = os.path.join(os.path.dirname(os.path.dirname(os.path.abspath(__file__))), 'seeded_neutral')
+    if corpus and os.path.isdir(cdir):
+        for name in sorted(os.listdir(cdir)):
+            d = os.path.join(cdir, name)
+            if name.startswith('_') or not os.path.isfile(os.path.join(d, 'patch.diff')):
+                continue
+            res['variants'] += 1
+            ov = apply_unified(prog, open(os.path.join(d, 'patch.diff')).read())
+            if ov is None:
+                res['skipped'].append(name)
+                continue
+            names.append(name)
+            jobs.append(ov)
+    for name, r in zip(names, eval_variants(prog, jobs, list(props))):
         bad = []
-        for p, mod in mods.items():
-            try:
-                ck = Check(p, 'quick')
-                mod.run(ck, mp)
-                bad += [f'{p}:{f.rule}:{f.message[:80]}' for f in ck.findings if f.key not in base[p]]
-            except AnalysisError as e:
-                bad.append(f'{p}:ANALYSIS-ERROR:{str(e)[:100]}')
+        for p in props:
+            got = r[p]
+            if isinstance(got, str):
+                bad.append(f'{p}:{got[:120]}')
+            else:
+                bad += [f'{p}:{rule}:{msg[:80]}' for rule, func, construct, msg in got if (rule, func, construct) not in base[p]]
         if bad:
-            res['alarms'][m['name']] = bad
+            res['alarms'][name] = bad
         else:
-            res['silent'].append(m['name'])
+            res['silent'].append(name)
     return res
 
 
 if __name__ == '__main__':
     import json
-    r = run_neutral([f'C{i:02d}' for i in range(1, 21)], Program())
+    r = run_neutral([f'C{i:02d}' for i in range(1, 21)], Program(), corpus='--no-corpus' not in sys.argv)
     print(json.dumps(r, indent=1))
     sys.exit(1 if r['alarms'] else 0)
